@@ -92,6 +92,53 @@ pub fn circuit(r: &mut Rng, max_inputs: usize, max_ops: usize) -> PG {
     p.renumber(&np, &eo)
 }
 
+/// many operations ready at once (17-48 constants), then consumers at a second and third depth
+pub fn wide_circuit(r: &mut Rng) -> PG {
+    use GateKind::*;
+    let m = r.range(17, 48);
+    let mut w: Vec<u32> = vec![0; m];
+    let mut e: Vec<PEdge<Gate>> = (0..m).map(|k| PEdge { l: g(Const, k as u32, 1), s: vec![], t: vec![k] }).collect();
+    let mut id = m as u32;
+    let consumers = r.range(1, 20);
+    let mut second: Vec<usize> = vec![];
+    for _ in 0..consumers {
+        let a = r.range(1, 3);
+        let src = r.vec_below(a, m);
+        w.push(0);
+        e.push(PEdge { l: g(Generic, id, 1), s: src, t: vec![w.len() - 1] });
+        second.push(w.len() - 1);
+        id += 1;
+    }
+    // one collector over many second-layer values and a few first-layer ones
+    let mut src = second.clone();
+    src.extend(r.vec_below(3, m));
+    w.push(0);
+    e.push(PEdge { l: g(Generic, id, 1), s: src, t: vec![w.len() - 1] });
+    let out = w.len() - 1;
+    let t = vec![out, r.below(m), out];
+    let p = POh { w, e, s: vec![], t };
+    let np = r.perm(p.w.len());
+    let eo = r.perm(p.e.len());
+    p.renumber(&np, &eo)
+}
+
+/// a chain of `n` unary gates (every second one a hash gate), optionally closed into a cycle near its end
+pub fn deep_circuit(r: &mut Rng, n: usize, closed: bool) -> PG {
+    use GateKind::*;
+    let mut w: Vec<u32> = vec![0; n + 1];
+    let mut e: Vec<PEdge<Gate>> = (0..n).map(|k| PEdge { l: g(if k % 2 == 0 { Neg } else { Generic }, k as u32, 1), s: vec![k], t: vec![k + 1] }).collect();
+    if closed {
+        // operation n/2 additionally reads the value produced at the end of the chain
+        let k = n / 2;
+        e[k] = PEdge { l: g(Generic, k as u32, 1), s: vec![k, n], t: vec![k + 1] };
+    }
+    w.push(0);
+    let p = POh { w, e, s: vec![0], t: vec![n, 0] };
+    let np = r.perm(p.w.len());
+    let eo = r.perm(p.e.len());
+    p.renumber(&np, &eo)
+}
+
 fn ident(p: &PG) -> impl Fn(&Gate) -> Option<usize> + '_ {
     move |l: &Gate| p.e.iter().position(|e| e.l.id == l.id)
 }
@@ -177,6 +224,30 @@ impl C16 {
                                 "log": run.batches.iter().map(|b| b.iter().map(|(l, x)| format!("{:?}{:?}", l, x)).collect::<Vec<_>>()).collect::<Vec<_>>()}));
                         }
                     }
+                    // the evaluator is generic in the value type: the same circuit over a non-Copy value type
+                    if !re.unwritten_read && r.chance(1, 4) {
+                        use open_hypergraphs::array::vec::{VecArray, VecKind};
+                        ctx.api("eval<String>");
+                        let sin: Vec<String> = inputs.iter().map(|x| x.to_string()).collect();
+                        let res = guard(|| {
+                            open_hypergraphs::strict::eval::eval::<VecKind, u32, Gate, String>(&lf, VecArray(sin), |ops, args| {
+                                let labels: &Vec<Gate> = &ops.0 .0;
+                                let segs = segs_to_lists(&args).unwrap_or_default();
+                                let outs: Vec<Vec<String>> = labels
+                                    .iter()
+                                    .enumerate()
+                                    .map(|(k, l)| {
+                                        let x: Vec<u64> = segs.get(k).map(|s| s.iter().map(|v| v.parse().unwrap_or(u64::MAX)).collect()).unwrap_or_default();
+                                        gate_apply(l, &x).into_iter().map(|v| v.to_string()).collect()
+                                    })
+                                    .collect();
+                                segs_from_lists(&outs)
+                            })
+                            .map(|v| v.0)
+                        });
+                        let wants: Vec<String> = want.iter().map(|x| x.to_string()).collect();
+                        ctx.check(matches!(&res, Ok(Some(v)) if *v == wants), "eval<String>/output-values/value/acyclic_single_writer", || json!({"input": input(), "observed": format!("{:?}", res.as_ref().map_err(|e| e.msg.clone())), "expected": wants}));
+                    }
                     // renumbering invariance
                     if r.chance(1, 2) && !re.unwritten_read {
                         let np = r.perm(p.w.len());
@@ -187,6 +258,15 @@ impl C16 {
                         let same = matches!(&run2.result, Ok(Some(v2)) if v2 == want);
                         ctx.check(same, "eval/renumbering-invariant/value/acyclic_single_writer", || json!({"input": input(), "renumbered": show(&p2),
                             "observed": format!("{:?}", run2.result.as_ref().map_err(|e| e.msg.clone())), "expected": want}));
+                        // the renumbered run obeys the same log oracle (reference inputs permuted along with the edges)
+                        let idf2 = ident(&p2);
+                        let refs2: Vec<Vec<u64>> = (0..p2.e.len()).map(|k| re.inputs[eo[k]].clone()).collect();
+                        if let Err((clause, why)) = judge_log(&p2, &run2.batches, &idf2, Some(refs2.as_slice())) {
+                            ctx.evaluations += 1;
+                            ctx.violation(&format!("eval/log-{}/value/renumbered", clause), json!({"input": input(), "renumbered": show(&p2), "why": why}));
+                        } else {
+                            ctx.evaluations += 1;
+                        }
                     }
                 }
             }
@@ -236,6 +316,10 @@ impl Monitor for C16 {
             ("class:output_is_input", 50),
             ("events:callback_operations_checked", 2000),
             ("api:eval(renumbered)", 200),
+            ("api:eval<String>", 200),
+            ("class:more_than_16_operations_ready_at_once", 100),
+            ("class:chain_of_several_hundred_operations", 20),
+            ("class:long_chain_closed_into_a_cycle", 10),
             ("outcome:Some", 500),
             ("outcome:None", 200),
         ]
@@ -246,6 +330,20 @@ impl Monitor for C16 {
             let (class, p) = &c[idx as usize];
             ctx.class(class);
             self.judge(ctx, class, p, r);
+            return;
+        }
+        if r.chance(1, 60) {
+            ctx.class("more_than_16_operations_ready_at_once");
+            let p = wide_circuit(r);
+            self.judge(ctx, "wide", &p, r);
+            return;
+        }
+        if r.chance(1, 400) {
+            let closed = r.chance(1, 3);
+            ctx.class(if closed { "long_chain_closed_into_a_cycle" } else { "chain_of_several_hundred_operations" });
+            let n = r.range(200, 500);
+            let p = deep_circuit(r, n, closed);
+            self.judge(ctx, "deep", &p, r);
             return;
         }
         let p = match r.below(10) {
